@@ -227,7 +227,8 @@ let addr_of (o : obs) (kt : n) : addr option =
 let ( >>= ) o f = match o with Some x -> f x | None -> None
 
 (* oracle candidates: (tombstones left by this operation's erasures, insertion reused a tombstone) *)
-let cands = List.concat_map (fun t -> [ (t, false); (t, true) ]) [0; 1; 2; 3; 4; 5; 6; 7; 8; 9; 10; 11; 12; 13; 14; 15; 16]
+let cands_upto k = List.concat_map (fun t -> [ (t, false); (t, true) ]) (List.init (k + 2) (fun i -> i))
+let cands = cands_upto 16
 
 let () =
   let variant = if Array.length Sys.argv > 1 && Sys.argv.(1) = "pinned" then pinned else fixed in
@@ -384,13 +385,19 @@ let () =
               let rec sub a b = (match a, b with [], _ -> true | _, [] -> false
                                  | x :: a', y :: b' -> if Z.equal x y then sub a' b' else if Z.gt x y then sub a b' else false) in
               let rec nodup = function x :: (y :: _ as r) -> not (Z.equal x y) && nodup r | _ -> true in
-              chk "panic_ledger" (nodup (zs after) && sub (zs after) (zs before))
+              (match xop with
+               | XClone _ ->
+                 (* the copies made so far are new objects owned by the half-built clone, which unwinding drops: they must
+                    be pairwise distinct and none of them may be an object of the source *)
+                 chk "panic_ledger" (nodup (zs after))
+               | _ -> chk "panic_ledger" (nodup (zs after) && sub (zs after) (zs before)))
             | None ->
            (match xop with
             | Plain (p, kind, dbg) ->
               let run (t, ru) al = stepA !e !vsz variant pre.st p { o_tomb = n_of_int t; o_reuse = ru; o_alloc = al } in
               let alloc_ok = not (match rest with ["try_reserve"; _; "fail"] -> true | _ -> false) in
               let matches r = match r with Some ((s', _), _) -> Z.equal (z_of_n (capacity s'.tb)) (z_of_n post.cap) && Z.equal (z_of_n s'.tb.nb) (z_of_n post.st.tb.nb) | None -> false in
+              let cands = cands_upto (List.length pre.st.ents) in   (* every erasure of this step may leave a tombstone *)
               let chosen = match List.find_opt (fun c -> matches (run c alloc_ok)) cands with Some c -> run c alloc_ok | None -> run (0, false) alloc_ok in
               (match chosen with
                | None ->
